@@ -63,7 +63,7 @@ def run_shard(ctx, n, mode, spec, d, comp, data, key):
 def run(ctx):
     rng = ctx.rng
     cases = []
-    pool_lines = [b"a", b"b", b"c", b"a\tx", b"a\ty", b"b\tx", b"", b"a b", b"a\tx\tc", b"a\ty\tc", b"a\tz\tc\td", b"a x c", b"a y c", b"k1", b"k2", b"k3", b"k4", b"k5", b"\xff\x00", b"z" * 9000]
+    pool_lines = [b"a\t", b"a\tx\t", b"b\t", b"a ", b"a x ", b"k1\t", b"\t", b"a", b"b", b"c", b"a\tx", b"a\ty", b"b\tx", b"", b"a b", b"a\tx\tc", b"a\ty\tc", b"a\tz\tc\td", b"a x c", b"a y c", b"k1", b"k2", b"k3", b"k4", b"k5", b"\xff\x00", b"z" * 9000]
     counts = list(range(1, 13)) + [100]
     for n in counts:
         for comp in ("none", "gzip", "bzip2"):
